@@ -3,12 +3,31 @@
 package main
 
 import (
+	"time"
+	"path/filepath"
+	"os"
 	"strings"
 
 	"github.com/edutko/decipher/internal/file"
 )
 
+// cliname <name>: the real binary on an EMPTY file of that name (one argument): "out <stdout>"
+func cliNameRun(name string) string {
+	dir, err := os.MkdirTemp("", "vhc20")
+	must(err)
+	defer os.RemoveAll(dir)
+	if err := os.WriteFile(filepath.Join(dir, name), nil, 0o644); err != nil {
+		return "unwritable"
+	}
+	r := runCLI(dir, []string{"--", name}, nil, nil, 20*time.Second)
+	if r.exit != 0 && len(r.stdout) == 0 {
+		r = runCLI(dir, []string{"./" + name}, nil, nil, 20*time.Second)
+	}
+	return "out " + hx(r.stdout)
+}
+
 func init() {
+	ops["cliname"] = func(a []string) string { return cliNameRun(string(unhx(a[0]))) }
 	gens["C20"] = genC20
 	// print <info tokens>: the real printInfo on that Info (batched; single-op form for replay)
 	ops["print"] = func(a []string) string {
@@ -32,6 +51,20 @@ func controlStrings() []string {
 }
 
 func genC20(tier string, r *rng) {
+	// hostile FILE NAMES: the path is printed in front of every report
+	for _, c := range controlStrings() {
+		if strings.ContainsAny(c, "/\x00") {
+			continue
+		}
+		for _, n := range []string{"a" + c + "b.pem", c + "x", "x" + c} {
+			if n != "" && n != "." && n != ".." {
+				emit("cliname", hxs(n))
+			}
+		}
+	}
+	for _, n := range []string{"plain.txt", "  Subject: CN=evil", "a\nFAKE.pem: x.509v3 CA certificate\n  Subject: CN=forged", "é日本", "-r", "tab\there"} {
+		emit("cliname", hxs(n))
+	}
 	var lines []string
 	add := func(i file.Info) { lines = append(lines, infoStr(i)) }
 	ctl := controlStrings()
